@@ -42,7 +42,8 @@ class _Token:
 def run_per_rule(case, ctx, tier="quick"):
     from comb_spec_searcher.strategies.constructor import disjoint
 
-    case = dict(case, form=["plain"])
+    if case.get("form", ["plain"])[0] not in ("plain", "equiv", "path"):
+        case = dict(case, form=["plain"])  # reverse forms do not sample
     try:
         rule, _, _ = ruleforms.build_form(case)
     except (ruleforms.Refused, AssertionError):
@@ -283,7 +284,7 @@ def subchecks():
         SubCheck(
             name="per-rule",
             run_case=run_per_rule,
-            strategy=lambda tier: ruleforms.form_case(tier, forms=["plain"]),
+            strategy=lambda tier: ruleforms.form_case(tier, forms=["plain", "plain", "plain", "equiv", "path", "path"]),
             examples={"quick": 6000, "thorough": 300000},
         ),
         SubCheck(
